@@ -80,6 +80,8 @@ class Report:
         """fail closed when a rule matched fewer instances than counted by hand"""
         have = self.rules.get(rule, {}).get('instances', 0)
         self.rules.setdefault(rule, {'instances': 0, 'discharged': 0})['floor'] = n
+        if getattr(self, 'cut_short', 0):
+            return          # the run was cut short after many violations (harness.FAIL_FAST): instance counts are incomplete, the verdict is a violation anyway
         if have < n and not self.only_key:
             self.floor_errors.append('%s: %d instances, floor %d' % (rule, have, n))
 
@@ -94,6 +96,9 @@ class Report:
     # ------------------------------------------------------------------
     def finish(self):
         known = load_known(self.prop)
+        if getattr(self, 'cut_short', 0):
+            self.extra['cut_short'] = '%d chunks of cells not run: the run stopped after %d failed obligations (fail fast)' % (self.cut_short, len(self.fail))
+            print('note: run cut short after %d failed obligations; %d chunks of cells were not run' % (len(self.fail), self.cut_short))
         n_ob = sum(r['instances'] for r in self.rules.values())
         violations = []
         known_hit = []
